@@ -116,4 +116,17 @@ theorem C09_recv_kind_blind (f : Nat → Nat) (d : Dict) (evs : List ReadEv) (b 
 example : (writeAll [1,2,3] [.accept 2, .fail 1, .accept 3] 0 [] 0).out = .err 1 ∧
     (writeAll [1,2,3] [.accept 2, .fail 1, .accept 3] 0 [] 0).poisoned = true ∧
     (writeAll [1,2,3] [.accept 2, .fail 1, .accept 3] 0 [] 0).sink = [1,2] := by decide
+
+/-- **C09, no failing outcome is swallowed and none is invented (whole session).** Over any sequence of sends from an unpoisoned
+sender and any script of write outcomes: the part of the script the session consumed holds exactly as many failing outcomes
+(`Ok(0)`, errors of any kind) as sends reported an error, plus at most one for a send that never returned because the script ran
+out. A sender that retries a failed write silently, or reports an error the pipe never produced, violates this. -/
+theorem C09_session_faults_surface (ms : List Bytes) (st : SeqSt) (hp : st.poisoned = false) :
+    ∃ consumed, st.evs = consumed ++ (sendSeq ms st).2.evs ∧
+      faults consumed ≤ countFailed (sendSeq ms st).1 ∧ countFailed (sendSeq ms st).1 ≤ faults consumed + 1 :=
+  sendSeq_faults_surface ms st hp
+
+/-- non-vacuity: three messages; an error before the first byte of the second (not poisoned, the third is sent), then `Ok(0)` -/
+example : (sendSeq [[1,2], [3,4], [5]] ⟨[], false, [.accept 2, .fail 3, .accept 9, .zero]⟩).1 = [.ok, .failed, .ok] ∧
+    (sendSeq [[1,2], [3,4], [5]] ⟨[], false, [.accept 2, .fail 3, .accept 9, .zero]⟩).2.sink = [1,2,5] := by decide
 end FV.Props
